@@ -4,6 +4,7 @@ import Cppcms.C12.Form
 import Cppcms.C12.Header
 import Cppcms.C12.Limits
 import Cppcms.C12.EndToEnd
+import Cppcms.C12.Events
 /-!
 # C12 property theorems
 
@@ -499,5 +500,49 @@ theorem requestIO_cut_independent (i j : ReqIn) (hflt : i.flt = j.flt) (hct : i.
       cases hs : start i.lim i.contentType i.cl with
       | error code => rfl
       | ok m => cases m <;> rfl
+
+/-- **multipart_filter_sees_each_part_once**: for a well-formed body under *any* chunking, the
+callbacks a `multipart_filter` receives, leaving out the `on_upload_progress` reports (whose
+number and sizes depend on where the chunks end, by design), are exactly: for each part in
+order `on_new_file` (name known, size 0) and `on_data_ready` (its full size), and finally
+`on_end_of_content` — every part, hence every content byte, is handed over exactly once. -/
+theorem multipart_filter_sees_each_part_once (cfg : Cfg) (bkey : Bytes) (hb : cfg.boundary = Spec.delimiter bkey)
+    (hk : Spec.WFbkey bkey) (hdisk : cfg.diskOk = true) (ps : List Part) (hwf : Spec.WFparts bkey ps)
+    (hsz : ∀ p ∈ ps, p.mime = [] → p.data.length ≤ cfg.fieldLimit) (cs : List Bytes)
+    (hcs : Spec.IsChunking cs (Spec.encode bkey ps)) :
+    noProg (evRun cfg cs.flatten.length {} cs) =
+      ps.flatMap (fun p => [Ev.newFile p.name 0, Ev.dataReady p.data.length]) ++ [Ev.endOfContent] := by
+  have hb' : cfg.boundary = 13 :: 10 :: 45 :: 45 :: bkey := by rw [hb]; rfl
+  have g : Guard cfg.boundary := ⟨bkey, hb', hk.2⟩
+  have h0 : ({} : RS).read = 0 := rfl
+  let items : List Item := ps.map fun p => { hdr := Spec.encodeHeader p, info := metaOf p, data := p.data }
+  have henc : Spec.encodeWith bkey (items.map fun it => (it.hdr, it.data)) = Spec.encode bkey ps := by
+    simp only [items, List.map_map, Spec.encode]
+    rfl
+  have hok : ∀ it ∈ items, ItemOK cfg it := by
+    intro it hit
+    simp only [items, List.mem_map] at hit
+    obtain ⟨p, hp, rfl⟩ := hit
+    refine ⟨encodeHeader_headerOK bkey p (hwf p hp), noEarly_of_not_infix g (by rw [hb]; exact (hwf p hp).2.2), ?_⟩
+    unfold sizeOk
+    by_cases hm : p.mime = []
+    · have := hsz p hp hm; simp [metaOf, hm]; omega
+    · simp [metaOf, hm]
+  rw [evRun_flatten cfg _ cs {} (by rw [h0]; omega)]
+  rw [evRun_single cfg bkey hb' hk.2 hdisk items hok cs.flatten (by rw [henc]; exact hcs)]
+  have hev : items.flatMap partEvents = ps.flatMap (fun p => [Ev.newFile p.name 0, Ev.dataReady p.data.length]) := by
+    simp only [items, List.flatMap_map]
+    rfl
+  rw [hev]
+  simp only [noProg, List.filter_append, List.filter_flatMap]
+  congr 1
+
+/-- … and for *every* body (well-formed or not, accepted or refused) the callbacks other than
+the progress reports do not depend on the chunking -/
+theorem filter_events_chunking_independent (cfg : Cfg) (cl : Nat) (cs₁ cs₂ : List Bytes)
+    (hjoin : cs₁.flatten = cs₂.flatten) (hlen : cs₁.flatten.length ≤ cl) :
+    noProg (evRun cfg cl {} cs₁) = noProg (evRun cfg cl {} cs₂) := by
+  have h0 : ({} : RS).read = 0 := rfl
+  rw [evRun_flatten cfg cl cs₁ {} (by rw [h0]; omega), evRun_flatten cfg cl cs₂ {} (by rw [h0, ← hjoin]; omega), hjoin]
 
 end Cppcms.C12.Props
